@@ -21,7 +21,7 @@ Section Cases.
   (* if s.active.empty() { s.active = s.filled } *)
   Definition anchor (s : st) : st :=
     if l_empty (active s)
-    then log_ev (set_active s (filled s)) (EvAnchor (l_head (active s)) (l_head (filled s))) else s.
+    then log_ev (set_active s (filled s)) (EvAnchor (l_head (active s)) (l_head (filled s)) (lagging s)) else s.
   (* if s.filled.compare(s.active.tail) == slCompareInside { s.active.tail = s.filled.tail } *)
   Definition extend (s : st) : st :=
     if cmp_eqb (compare (filled s) (l_tail (active s))) CInside
